@@ -1,6 +1,10 @@
 package checks
 
 import (
+	"encoding/hex"
+	"embed"
+	"crypto/sha512"
+	"crypto/sha256"
 	"bytes"
 	"crypto/aes"
 	"crypto/cipher"
@@ -121,8 +125,52 @@ func c19Image(passClass, format int64) ([]byte, error) {
 	return img, nil
 }
 
+// c19GoldenLens: key files written by the tree as it was when the check was built (testdata/c19golden), for
+// passphrases of these lengths; c19GoldenPass(n) is the passphrase. A later tree must still open them.
+var c19GoldenLens = []int{1, 16, 64, 65, 300, 4096}
+
+func c19GoldenPass(n int) []byte {
+	p := make([]byte, n)
+	for i := range p {
+		p[i] = byte('a' + (i*7+n)%26)
+	}
+	return p
+}
+
+//go:embed testdata/c19golden/*.json
+var c19GoldenFS embed.FS
+
+func c19Golden(o *sim.Outcome) {
+	for _, n := range c19GoldenLens {
+		img, err := c19GoldenFS.ReadFile(fmt.Sprintf("testdata/c19golden/len%d.json", n))
+		if err != nil {
+			panic("INFRA: " + err.Error())
+		}
+		dir, _ := os.MkdirTemp("", "verif-c19g-")
+		_ = os.WriteFile(filepath.Join(dir, "signer.json"), img, 0o600)
+		sg, lerr := filesigner.LoadFileSystemSigner(dir, c19GoldenPass(n))
+		os.RemoveAll(dir)
+		if lerr != nil {
+			o.Fail("C19/stored-key-file-no-longer-loads", fmt.Sprintf("C19/stored-key-file-no-longer-loads/len=%d", n), 0,
+				fmt.Sprintf("a key file written earlier by this code base under a %d-byte passphrase does not load with that passphrase: %v", n, lerr), "a key saved under a passphrase loads with that passphrase")
+			return
+		}
+		pub, err := sg.GetPublic()
+		if err != nil || !pub.Equals(c19Key.GetPublic()) {
+			o.Fail("C19/loaded-a-different-key", "C19/loaded-a-different-key/stored-file", 0, fmt.Sprintf("stored key file (%d-byte passphrase): the loaded signer reports another public key (%v)", n, err), "loads to the same key")
+			return
+		}
+		o.Count("stored-key-files-loaded", 1)
+	}
+	o.NonTrivial = true
+}
+
 func c19Run(t *testing.T, s *sim.Scn) *sim.Outcome {
 	o := sim.NewOutcome()
+	if s.Cfg["golden"] == 1 {
+		c19Golden(o)
+		return o
+	}
 	passClass, format := s.Cfg["pass"], s.Cfg["fmt"]
 	pass := c19Pass(passClass)
 	if format%2 == 1 && len(pass) == 0 {
@@ -166,7 +214,28 @@ func c19Run(t *testing.T, s *sim.Scn) *sim.Outcome {
 		case "wrongpass":
 			w := c19Pass(op.A)
 			// B > 0: a near miss derived from the right passphrase
-			switch op.B % 10 {
+			switch op.B % 16 {
+			case 10:
+				d := sha256.Sum256(pass) // what a key derivation that pre-hashes long passphrases would really use
+				w = d[:]
+			case 11:
+				d := sha256.Sum256(pass)
+				w = []byte(hex.EncodeToString(d[:]))
+			case 12:
+				d := sha512.Sum512(pass)
+				w = d[:]
+			case 13:
+				if len(pass) > 64 {
+					w = pass[:64]
+				}
+			case 14:
+				if len(pass) > 32 {
+					w = pass[:32]
+				}
+			case 15:
+				if len(pass) > 128 {
+					w = pass[:128]
+				}
 			case 1:
 				w = append(append([]byte(nil), pass...), '\n')
 			case 2:
@@ -188,7 +257,7 @@ func c19Run(t *testing.T, s *sim.Scn) *sim.Outcome {
 			case 9:
 				w = bytes.ToLower(pass)
 			}
-			if op.B%10 != 0 {
+			if op.B%16 != 0 {
 				o.Count("near-miss-passphrases", 1)
 			}
 			if bytes.Equal(w, pass) {
@@ -364,6 +433,7 @@ func c19Field(img []byte, pos int) string {
 }
 
 func c19Enumerate(tier string, run func(*sim.Scn) *sim.Outcome) string {
+	run(&sim.Scn{Cfg: map[string]int64{"golden": 1}})
 	var scns []*sim.Scn
 	total := 0
 	for pass := int64(0); pass < c19Classes; pass++ {
@@ -384,7 +454,7 @@ func c19Enumerate(tier string, run func(*sim.Scn) *sim.Outcome) string {
 			for w := int64(0); w < c19Classes; w++ {
 				scns = append(scns, &sim.Scn{Cfg: cfg(), Ops: []sim.Op{{K: "wrongpass", A: w}}})
 			}
-			for d := int64(1); d < 10; d++ {
+			for d := int64(1); d < 16; d++ {
 				scns = append(scns, &sim.Scn{Cfg: cfg(), Ops: []sim.Op{{K: "wrongpass", A: 1, B: d}}})
 			}
 			if pass >= 4 && (tier != "thorough" || pass > 4) {
